@@ -24,7 +24,7 @@ for d in "$@"; do
   ids="${MX_IDS:-}"
   # MX_OWN=1: only the check of the property the change was written against (directory name prefix)
   if [ -n "${MX_OWN:-}" ]; then ids="$(basename "$d" | cut -d- -f1)"; fi
-  ( cd "$MX/verif" && tools/try_patch.sh "$d/patch.diff" $ids ) >> "$log" 2>&1
+  ( cd "$MX/verif" && TRY_NO_REBUILD=1 tools/try_patch.sh "$d/patch.diff" $ids ) >> "$log" 2>&1
 done
 echo "MATRIX-DONE" >> "$log"
 if [ -z "${MX_KEEP:-}" ]; then
